@@ -49,6 +49,7 @@ pub struct Profile {
 pub enum Init {
     New,
     WithCapacity(usize),
+    Default,
     /// a prepared non-initial state (E2 boundary windows): label, prefix description, state
     Seed(String, State),
 }
@@ -58,6 +59,7 @@ impl Init {
         match self {
             Init::New => "Arena::new()".into(),
             Init::WithCapacity(n) => format!("Arena::with_capacity({n})"),
+            Init::Default => "Arena::default()".into(),
             Init::Seed(l, _) => l.clone(),
         }
     }
@@ -65,6 +67,7 @@ impl Init {
         match self {
             Init::New => State::initial(Arena::new()),
             Init::WithCapacity(n) => State::initial(Arena::with_capacity(*n)),
+            Init::Default => State::initial(Arena::default()),
             Init::Seed(_, s) => s.clone(),
         }
     }
